@@ -3,7 +3,7 @@ CONSTANTS
   NAcc = 3
   F = 1
   MaxBal = 3
-  NSlots = 2
+  NSlots = 1
   Values = {1, 2}
 INVARIANTS Agreement InputsConsistent Witness
 CHECK_DEADLOCK FALSE
